@@ -300,9 +300,9 @@ type reached struct {
 
 func preamble(src string) string {
 	if src == "batch" {
-		return "var o = batch\n    |query('SELECT v FROM db.rp.m')\n        .period(10s)\n        .every(10s)\n"
+		return "var o = batch\n    |query('SELECT v FROM db.rp.o')\n        .period(10s)\n        .every(10s)\n"
 	}
-	return "var o = stream\n    |from()\n"
+	return "var o = stream\n    |from()\n        .measurement('o')\n"
 }
 
 // reach: validated breadth-first search - for every kind the shortest script prefix the
